@@ -443,3 +443,13 @@ def _warn_noop(interp, *a, **k):
 
 _warn_noop.always = True
 BUILTIN_MODELS[_warnings.warn] = _warn_noop
+
+
+def _m_object_setattr(interp, obj, name, value):
+    if interp.store_hook is not None:
+        interp.store_hook('attr', obj, name, value)
+    object.__setattr__(obj, name, value)
+
+
+_m_object_setattr.always = False
+BUILTIN_MODELS[object.__setattr__] = _m_object_setattr
